@@ -62,7 +62,9 @@ def generate(seed, tier):
 
 
 def _generate(r):
-    return {"pre_sys": r.random() < 0.4, "pre_thread": r.random() < 0.4, "no_trace": r.random() < 0.3,
+    form = r.choice((None, None, None, "True", "true", "1", "False", "false", "0", False))
+    return {"pre_sys": r.random() < 0.4, "pre_thread": r.random() < 0.4,
+            "no_trace": (r.random() < 0.3) if form is None else form in ("True", "true", "1"), "no_trace_form": form,
             "start_twice": r.random() < 0.3, "shutdown_twice": r.random() < 0.3,
             "hits_before": r.randrange(0, 4), "pending": [r.choice(("ok", "error", "slow", "stuck")) for _ in range(r.randrange(0, 4))],
             "poll_errors": r.random() < 0.3, "plugin_shutdown_raises": sorted(r.sample((0, 1, 2), r.choice((0, 0, 1, 2)))),
@@ -160,6 +162,9 @@ def execute(s, ch):
         plugins = [{"name": "LifeP%d" % i, "kinds": ["logger", "metric", "span"] if i == 0 else ["decorator"]}
                    for i in range(3)]
         cfg = {"NO_TRACE": True} if s["no_trace"] else {}
+        if s.get("no_trace_form") is not None:
+            # the switch written as text (as it arrives from DEEP_NO_TRACE) or as a bool, on or off
+            cfg = {"NO_TRACE": s["no_trace_form"]}
         w = world.World(k, cfg=cfg, plugins=plugins, python_plugin=False)
         # World.__init__ resets the hooks of the process: set the pre-existing ones again, as the application would
         sys.settrace(want_sys)
@@ -317,6 +322,11 @@ def execute(s, ch):
                           "shutdown returned" % (len(w.pushed) - mark_p, [c[2] for c in acts][:4], threads)))
         if len(w.service.polls) > mark_polls:
             viol.append(V("polls-after-shutdown", "%d polls" % (len(w.service.polls) - mark_polls)))
+        open_channels = [c for c in w.service.channels if not c.closed]
+        if open_channels:
+            # an open channel is not passive: it keeps (re)connecting to the service, and every start opens one more
+            viol.append(V("channel-left-open-after-shutdown", "%d of %d channels to the service still open" % (
+                len(open_channels), len(w.service.channels))))
         if len(w.service.send_attempts) > mark_sends and "stuck" not in s["pending"]:
             # (the drain waits a bounded time per delivery: what is queued behind a delivery that outlasts it may still
             # go out later - not demanded either way)
